@@ -18,6 +18,7 @@ func init() { register("C06", propC06, false, true) }
 func propC06(c *Ctx) {
 	c.R.Explanation = "Decides for the module's own code that no observable value depends on map iteration order, time, randomness, environment, process identity, addresses or scheduling: every `range` over a map is classified order-insensitive from its body (or is a named exception with a reason), ordered catalog maps iterate their order slice, no nondeterminism source is called, the code is sequential (no go/select), and there is no mutable package-level state through which a prior build could influence a later one. Not decided: determinism inside jsight-schema-core (trusted; thorough tier lists its nondeterminism sources reachable from the library as observations)."
 	c.ruleMapRange("C06-MAPRANGE")
+	c.ruleDepFirstFault("C06-DEP-FIRST-FAULT")
 	c.ruleDocOrder("C06-DOC-ORDER")
 	c.ruleNondetSources()
 	c.ruleSequential()
